@@ -51,7 +51,8 @@ cp "$VERIF/go.sum" "$SCR/go.sum"
 if [ "$ID" = "selftest-instrument" ]; then
   # the rewritten tree must still pass the repository's own test suite under
   # -race (simulator inactive => every Yield is a no-op, locks are try-lock spins)
-  mkdir -p "$SCR/stub/verif/simrt/pkgstate" "$SCR/stub/verif/stublog"
+  mkdir -p "$SCR/stub/verif/simrt/pkgstate" "$SCR/stub/verif/simrt/simtime" "$SCR/stub/verif/stublog"
+  cp "$VERIF/simrt/simtime/simtime.go" "$SCR/stub/verif/simrt/simtime/"
   cp "$VERIF/simrt/simrt.go" "$SCR/stub/verif/simrt/"; cp "$VERIF/stublog/stublog.go" "$SCR/stub/verif/stublog/"
   cp "$VERIF/simrt/pkgstate/pkgstate.go" "$SCR/stub/verif/simrt/pkgstate/"
   printf 'module verif\n\ngo 1.21\n' > "$SCR/stub/verif/go.mod"
@@ -70,7 +71,7 @@ fi
 # build overlay, generated from the toolchain's own sources (see mkoverlay.sh)
 OVERLAY="$("$VERIF/mkoverlay.sh")" || fail2 "generating the build overlay failed"
 
-( cd "$VERIF" && go build -race -trimpath -overlay "$OVERLAY" -modfile="$SCR/go.mod" -o "$SCR/simworld" ./cmd/simworld ) >"$SCR/build.log" 2>&1 \
+( cd "$VERIF" && go build -race -trimpath -overlay "$OVERLAY" -ldflags "-X verif/simrt/simtime.mode=virtual" -modfile="$SCR/go.mod" -o "$SCR/simworld" ./cmd/simworld ) >"$SCR/build.log" 2>&1 \
   || { cat "$SCR/build.log" >&2; fail2 "building the instrumented worker failed (does the tree compile?)"; }
 
 [ "$MODE" = "build" ] && { echo "build ok"; exit 0; }
